@@ -24,6 +24,8 @@ KIND = {"subscribe": ("windowSubscribe", "SUBSCRIBE", "SUBACK"), "unsubscribe": 
 
 def check(ctx):
     a = ctx.a
+    from .c03 import framing_premise
+    framing_premise(ctx, 'S-FRAME', 'a SUBACK/UNSUBACK that is mis-framed leaves its request pending or answers another one')
     ty = types(a)
     caps, pm, _ = capabilities(a)
     classes = [c for c in a.protos if "sub" in caps.get(c.qual, set())]
@@ -137,6 +139,16 @@ def check(ctx):
                     ctx.ob("S-ACK", "%s %s calls back the looked-up request with %s" % (cq, ack, "the granted list" if ack == "SUBACK" else "the identifier"),
                            ok, where=where(f), function=f.func, construct="%s/%s/callback" % (f.func, ack),
                            msg="%s on %s with %s" % (f.a["how"], show(own), show(f.a["arg"])))
+                    # the application's callbacks run inside callback(): a subscribe()/unsubscribe() made from there counts the
+                    # window, so the acknowledged request has to have left it by then - otherwise a request made while fewer than
+                    # `window` are pending is refused with MQTTWindowError
+                    un = [x for x in evs if x.kind == "UNREG" and x.a["reg"] == reg]
+                    before = [x for x in un if x.seq < f.seq]
+                    ctx.ob("S-ACK", "%s %s takes the request out of its window before its Deferred fires" % (cq, ack), bool(before) or not un,
+                           where=where(f), function=f.func, construct="%s/%s/fires-before-removal" % (f.func, ack),
+                           msg="the Deferred of the acknowledged request fires (user callbacks run) while the request still occupies its slot in "
+                               "%s: a %s() made from the callback with the window otherwise one short of full is refused with MQTTWindowError "
+                               "although fewer than `window` requests are pending" % (reg, "subscribe" if ack == "SUBACK" else "unsubscribe"))
         rule_fire_once(ctx, cat)
         rule_drop(ctx, cat)
         # who may success-fire a subscribe/unsubscribe Deferred
